@@ -195,7 +195,7 @@ def base_spec(s):
         kind = 'nomeasure'
     sp = {'k': 'tpl', 'dim': dim, 'surface': False, 'boundary': kind.startswith('boundary'), 'arity': 2, 'comps': comps,
             'spaces': [0, 0],
-            'c': s.pick([2.0, 3.0, 0.5, 1e-13]), 'fn': fn, 'in_shape': s.pick([[], [], [2]]), 'phys': bool(s.choice(2)), 'upd': False,
+            'c': s.pick([2.0, 3.0, 0.5, 1e-13, -1.0, -1.0]), 'fn': fn, 'in_shape': s.pick([[], [], [2]]), 'phys': bool(s.choice(2)), 'upd': False,
             'in_deriv': bool(s.choice(3) == 0), 'in_dpara': bool(s.choice(2)), 'in_comp': 0, 'vop': s.pick(['', '', '+']),
             'let': s.pick([None, None, {'name': 'B', 'sym': True}, {'name': 'B', 'sym': False}]), 'st': False,
             'mat_kind': s.pick(['', '', '', 'param', 'input']), 'mat_shape': s.pick([[2, 3], [3, 2], [2, 2]]),
@@ -229,6 +229,7 @@ def mutations(spec):
             if g != spec['fn']:
                 mut('function-name', fn=g)
     mut('constant', c=spec['c'] + 1.0)
+    mut('constant-minus-one', c=spec['c'] - 1.0)       # e.g. -1.0 -> -2.0: Python's hash(-1) == hash(-2)
     mut('constant-tiny-difference', c=spec['c'] + 3e-13)
     if spec['comps'] and spec['arity'] == 2:
         mut('vector-operator', vop={'': '+', '+': '-', '-': '+'}[spec.get('vop', '')])
